@@ -7,6 +7,8 @@ from harness.dsim import DExplore, make_jobs, make_random_jobs as make_drandom_j
 
 CONFIGS = {
     "stop-anywhere": dict(app=True, stoppable=True),
+    # shutdown must complete whatever happened to the connections: here any link may die at any moment (e.g. between its KCM and the selection turn)
+    "stop-anywhere-any-loss": dict(app=False, stoppable=True, lose_any=True),
     "old-peer": dict(app=True, stoppable=True, peer_inert=True),
     "ping-timeout": dict(app=False, stoppable=True, silent_after_connect=True),
 }
@@ -14,6 +16,15 @@ CONFIGS = {
 
 class Shutdown(DExplore):
     configs = CONFIGS
+
+    def final_phase(self, sim):
+        # "closing always completes, whatever state dilation is in": every side that has not been stopped yet is stopped now
+        did = False
+        for a in list(sim.enabled()):
+            if a[0] == "stop" and a in sim.enabled():
+                sim.do(a)
+                did = True
+        return did
 
     def violations(self, sim, when):
         out = []
